@@ -4,16 +4,18 @@ import itertools
 import re
 from fractions import Fraction as F
 
+import common as C
 from props import _units as X
 
 ID = "C12"
 SECTIONS = ["units"]
 LEAN_MODULES = ["QExPy.Props.C12"]
-LEMMA_MODULES = ["QExPy.Lemmas.UnitParse", "QExPy.Lemmas.ParseEquiv", "QExPy.Lemmas.ParseAst", "QExPy.Lemmas.Lex", "QExPy.Lemmas.LexRound", "QExPy.Lemmas.ParseSpec"]
+LEMMA_MODULES = ["QExPy.Lemmas.UnitParse", "QExPy.Lemmas.ParseEquiv", "QExPy.Lemmas.ParseAst", "QExPy.Lemmas.Lex", "QExPy.Lemmas.LexRound", "QExPy.Lemmas.ParseSpec", "QExPy.Lemmas.ParseSession"]
 THEOREMS = ["QExPy.C12_scanner_pins_patterns", "QExPy.C12_precedence_table",
             "QExPy.C12_tokens_equiv", "QExPy.C12_parse_eq_ref", "QExPy.C12_lex_total",
             "QExPy.C12_lex_roundtrip", "QExPy.C12_sound", "QExPy.C12_complete",
-            "QExPy.C12_tokens_sound_complete", "QExPy.C12_tokens_equiv_partial"]
+            "QExPy.C12_tokens_sound_complete", "QExPy.C12_tokens_equiv_partial",
+            "QExPy.C12_session_parse_pure", "QExPy.C12_session_frame", "QExPy.C12_session_edit"]
 RULE = ("sentences generated from the grammar expr := term (('*'|'/'|dot) term)*, term := factor+, "
         "factor := SYMBOL | SYMBOL^INT | SYMBOL^(p/q) | '(' expr-without-parentheses ')', optional "
         "bare numerator '1/' (the two printed forms of C13 are part of the accepted language), up "
@@ -24,7 +26,13 @@ RULE = ("sentences generated from the grammar expr := term (('*'|'/'|dot) term)*
         "from the grammar (reject unless the corrupted string is again a sentence).  The same "
         "strings go to the Lean model (`parse`) and the Lean reference grammar (`refParse`).  "
         "Non-trivial = contains '/' together with juxtaposition or brackets; thorough: all strings "
-        "up to length 6 over an 11-character alphabet and all token strings up to length 6")
+        "up to length 6 over an 11-character alphabet and all token strings up to length 6.  "
+        "HISTORIES of calls (sessions): the same string again through every entry point, "
+        "near-identical strings (letter case, dot, blank, sign), rejected calls in between, and the "
+        "caller editing the mappings parse_unit_string handed out (item assignment, pop, clear); "
+        "every reply is judged by the reference parser on the string of that call alone, every "
+        "mapping / quantity / array / definition obtained earlier is looked at again; the same "
+        "history goes to the Lean session model (`runS`)")
 ASSUMPTIONS = ["the scanner in Model/UnitParse.lean mirrors what re.fullmatch + finditer do for the "
                "pinned pattern texts; that is validated by this run (exhaustively over short "
                "strings in the thorough tier), not proved",
@@ -33,10 +41,11 @@ ASSUMPTIONS = ["the scanner in Model/UnitParse.lean mirrors what re.fullmatch + 
                "the grammar of the statement is extended by the two forms the printer produces "
                "('1/' numerator, '^(p/q)' powers), which C13 requires to be accepted"]
 TRUSTED = ["modelled not verified: Python's re engine (fullmatch/finditer), int(), Fraction()"]
-LEVEL_TEXT = ('Lean 4 theorems over an exact model of tokeniser, implicit-multiplication grouping, two-stack precedence parser and evaluator: the pipeline equals a reference recursive-descent parser for ALL token lists incl. nested groups (acceptance and rejection), for all strings (C12_parse_eq_ref), the lexer accounts for every character, and parsing is sound and complete against a syntax-tree denotation; the regex texts and the precedence table are pinned from the source by the translator; differential run on grammar sentences, single-character corruptions and (thorough) all strings up to 6 characters.')
+LEVEL_TEXT = ('Lean 4 theorems over an exact model of tokeniser, implicit-multiplication grouping, two-stack precedence parser and evaluator: the pipeline equals a reference recursive-descent parser for ALL token lists incl. nested groups (acceptance and rejection), for all strings (C12_parse_eq_ref), the lexer accounts for every character, and parsing is sound and complete against a syntax-tree denotation; the regex texts and the precedence table are pinned from the source by the translator; differential run on grammar sentences, single-character corruptions and (thorough) all strings up to 6 characters; histories of calls (the same string again through every entry point, caller edits of the mappings handed out) against a Lean session model whose replies are proved to depend on the string alone (C12_session_parse_pure, _frame, _edit).')
 LEVEL_NOTE = ("parser pipeline = reference grammar proved for all token lists and all strings (induction); "
               "scanner vs. Python's re engine tied by the differential run")
 TECHNIQUE = "Lean 4 theorems over an exact model of tokeniser, grouping, two-stack parser, evaluator"
+CLEANROOM = True    # the reported input is confirmed stand-alone in a new process (vf/check.py)
 
 
 # ------------------------------------------------------------------ independent reference parser
@@ -404,14 +413,31 @@ def api_check(strings):
         prev = "Q^3/x"
         x = q.Measurement(1.0, 0.1, unit=prev)
         arr = q.MeasurementArray([1.0, 2.0], 0.1, unit=prev)
+        xy = q.XYDataSet(xdata=[1.0, 2.0], ydata=[3.0, 4.0], xunit=prev, yunit=prev)
         q.define_unit("Zz", "kg*m")
-        before = (unit_sem(x), [unit_sem(e) for e in arr])
+
+        def state():
+            return (unit_sem(x), [unit_sem(e) for e in arr], [unit_sem(e) for e in xy.xdata],
+                    [unit_sem(e) for e in xy.ydata])
+
+        def all_same(elems):
+            us = {unit_sem(e) for e in elems}
+            return us.pop() if len(us) == 1 else ("elements differ", sorted(us))
+        before = state()
         entries = {
             "ctor": lambda: unit_sem(q.Measurement(1.0, 0.1, unit=s)),
             "setter": lambda: (setattr(x, "unit", s), unit_sem(x))[1],
-            "array-ctor": lambda: unit_sem(q.MeasurementArray([1.0, 2.0], 0.1, unit=s)[1]),
-            "array-setter": lambda: (setattr(arr, "unit", s), unit_sem(arr[0]))[1],
+            "array-ctor": lambda: all_same(q.MeasurementArray([1.0, 2.0], 0.1, unit=s)),
+            "array-setter": lambda: (setattr(arr, "unit", s), all_same(arr))[1],
             "define": lambda: (q.define_unit("Zz", s), ("ok", ()))[1],
+            # the other call forms that take a unit string
+            "repeated-ctor": lambda: unit_sem(q.Measurement([1.0, 1.5, 2.0], unit=s)),
+            "wrap-ctor": lambda: all_same(q.MeasurementArray(
+                [q.Measurement(1.0, 0.1), q.Measurement(2.0, 0.1, unit=prev)], unit=s)),
+            "xy-ctor-x": lambda: all_same(q.XYDataSet([1.0, 2.0], [3.0, 4.0], xunit=s).xdata),
+            "xy-ctor-y": lambda: all_same(q.XYDataSet(xdata=[1.0, 2.0], ydata=[3.0, 4.0], yunit=s).ydata),
+            "xy-xunit": lambda: (setattr(xy, "xunit", s), all_same(xy.xdata))[1],
+            "xy-yunit": lambda: (setattr(xy, "yunit", s), all_same(xy.ydata))[1],
         }
         for name, f in entries.items():
             acc, res = attempt(f)
@@ -425,7 +451,7 @@ def api_check(strings):
                 bad = "{} gives the string another meaning than parse_unit_string".format(name)
             elif not acc:
                 # the fault: nothing may have changed, and the next valid request must work
-                after = (unit_sem(x), [unit_sem(e) for e in arr])
+                after = state()
                 z = attempt(lambda: unit_sem(q.Measurement(1.0, 0.1, unit="Zz") /
                                              q.Measurement(1.0, 0.1, unit="kg")))
                 if after != before:
@@ -434,21 +460,445 @@ def api_check(strings):
                 elif z != (True, X.impl_parse("m")):
                     bad = "a rejected {} changed the unit definitions (Zz = kg*m reads {})".format(name, z)
                 else:
-                    ok2 = attempt(lambda: (setattr(x, "unit", prev), setattr(arr, "unit", prev))) if \
-                        name in ("setter", "array-setter") else (True, None)
+                    ok2 = attempt(lambda: (setattr(x, "unit", prev), setattr(arr, "unit", prev),
+                                           setattr(xy, "xunit", prev), setattr(xy, "yunit", prev))) if \
+                        name in ("setter", "array-setter", "xy-xunit", "xy-yunit") else (True, None)
                     if not ok2[0]:
                         bad = "after a rejected {} a valid assignment raises {}".format(name, ok2[1])
             if bad:
                 failures.append({"signature": "c12:api:{}:{}".format(name, shape(s)), "input": s,
                                  "oracle": "independent", "what": bad, "impl": [acc, str(res)],
                                  "expected": st, "entry": name})
-            if acc and name in ("setter", "array-setter"):
+            if acc and name in ("setter", "array-setter", "xy-xunit", "xy-yunit"):
                 x.unit = prev
                 arr.unit = prev
+                xy.xunit = prev
+                xy.yunit = prev
             if acc and name == "define":
                 q.define_unit("Zz", "kg*m")
     X.reset(q)
     return failures, dict(dist)
+
+
+# ------------------------------------------------------------------ sessions (histories of calls)
+# C12 speaks about one call; a program makes many.  A session is a history of calls of every
+# entry point, with REPEATED strings, near-identical strings (other letter case, dot for '*',
+# added blank), rejected strings in between, and with the caller EDITING the mappings that
+# parse_unit_string handed out (they are the caller's own dicts).  Whatever happened before, every
+# reply must be the reading of the string of THAT call (independent oracle: ref_parse), a mapping
+# handed out earlier must hold what its caller made of it, and the unit a quantity / an array / a
+# definition got earlier must still be the one its own string says.
+#
+# steps (handles are step indices):
+#   [entry, s]                    entry in ENTRIES: a call with the unit string s
+#   ["edit", h, "set", key, p, q] d[key] = p/q on the mapping handed out by the "parse" step h
+#   ["edit", h, "pop", key]       d.pop(key)
+#   ["edit", h, "clear"]          d.clear()
+#   ["read", h]                   look at the mapping / quantity / array / definition of step h
+ENTRIES = ["parse", "ctor", "setter", "array-ctor", "array-setter", "define", "repeated-ctor",
+           "wrap-ctor", "xy-ctor-x", "xy-ctor-y", "xy-xunit", "xy-yunit"]
+PROBE_SYM = "Zq"        # a symbol no generated string and no definition contains
+
+
+def _def_name(i):
+    return "Zz" + "".join(chr(ord("a") + int(c)) for c in str(i))
+
+
+def variants(s):
+    """strings that differ from s by what a sloppy cache key would ignore"""
+    out = [s.swapcase(), s.lower(), s.upper(), s.replace("*", X.DOT), s.replace(X.DOT, "*"),
+           s + " ", " " + s, s.replace("/", "*", 1), s.replace("^-", "^", 1), s.replace("^", "^-", 1)]
+    return [t for t in dict.fromkeys(out) if t and t != s]
+
+
+def session_expect(hist):
+    """independent oracle: per step ('ok', sem) | ('reject',) | ('skip',); entry steps by
+    ref_parse of their own string, handles by the harness's own dict operations"""
+    held = {}
+    out = []
+    for i, st in enumerate(hist):
+        if st[0] in ENTRIES:
+            r = ref_parse(st[1])
+            held[i] = None if r is None else dict(r)
+            out.append(("reject",) if r is None else ("ok", X.sem(held[i])))
+        elif st[0] == "edit":
+            d = held.get(st[1])
+            if d is None or hist[st[1]][0] != "parse":
+                out.append(("skip",))
+                continue
+            if st[2] == "set":
+                d[st[3]] = F(st[4], st[5])
+            elif st[2] == "pop":
+                if st[3] not in d:
+                    out.append(("skip",))
+                    continue
+                d.pop(st[3])
+            else:
+                d.clear()
+            out.append(("ok", X.sem(d)))
+        else:
+            d = held.get(st[1])
+            out.append(("skip",) if d is None else ("ok", X.sem(d)))
+    return out
+
+
+def session_run(q, hist):
+    """the history on the real library -> per step ('ok', sem) | ('reject', class) | ('skip',)"""
+    import warnings
+    from qexpy.utils import units as U
+    X.reset(q)
+    held = {}
+    out = []
+
+    def stored(x):
+        return X.sem({k: X.fr(v) for k, v in x._unit.items()})
+
+    def look(i):
+        kind, obj = held[i]
+        if kind == "parse":
+            return X.sem({k: X.fr(v) for k, v in obj.items()})
+        if kind in ("ctor", "setter"):
+            return stored(obj)
+        if kind in ("repeated-ctor",):
+            return stored(obj)
+        if kind in ("array-ctor", "array-setter", "wrap-ctor", "xy-ctor-x", "xy-ctor-y", "xy-xunit",
+                    "xy-yunit"):
+            us = {stored(e) for e in obj}
+            return us.pop() if len(us) == 1 else ("elements differ", sorted(us))
+        # a definition: seen through a product with a symbol that no definition contains (the
+        # result cannot be packed, so its stored map is the expansion of the name times Zq)
+        r = q.Measurement(2.0, 0.1, unit=obj) * q.Measurement(3.0, 0.1, unit=PROBE_SYM)
+        return tuple(x for x in stored(r) if x[0] != PROBE_SYM)
+
+    with warnings.catch_warnings():
+        warnings.simplefilter("ignore")
+        for i, st in enumerate(hist):
+            try:
+                if st[0] in ENTRIES:
+                    s = st[1]
+                    if st[0] == "parse":
+                        held[i] = ("parse", U.parse_unit_string(s))
+                    elif st[0] == "ctor":
+                        held[i] = ("ctor", q.Measurement(1.0, 0.1, unit=s))
+                    elif st[0] == "setter":
+                        x = q.Measurement(1.0, 0.1, unit="Q^3/x")
+                        x.unit = s
+                        held[i] = ("setter", x)
+                    elif st[0] == "array-ctor":
+                        held[i] = ("array-ctor", q.MeasurementArray([1.0, 2.0], 0.1, unit=s))
+                    elif st[0] == "array-setter":
+                        a = q.MeasurementArray([1.0, 2.0], 0.1, unit="Q^3/x")
+                        a.unit = s
+                        held[i] = ("array-setter", a)
+                    elif st[0] == "repeated-ctor":
+                        held[i] = (st[0], q.Measurement([1.0, 1.5, 2.0], unit=s))
+                    elif st[0] == "wrap-ctor":
+                        held[i] = (st[0], q.MeasurementArray(
+                            [q.Measurement(1.0, 0.1), q.Measurement(2.0, 0.1, unit="Q^3/x")], unit=s))
+                    elif st[0] in ("xy-ctor-x", "xy-ctor-y"):
+                        d = q.XYDataSet(xdata=[1.0, 2.0], ydata=[3.0, 4.0],
+                                        **{"xunit" if st[0][-1] == "x" else "yunit": s})
+                        held[i] = (st[0], list(d.xdata if st[0][-1] == "x" else d.ydata))
+                    elif st[0] in ("xy-xunit", "xy-yunit"):
+                        d = q.XYDataSet(xdata=[1.0, 2.0], ydata=[3.0, 4.0], xunit="Q^3/x", yunit="mol")
+                        setattr(d, st[0][3:], s)
+                        held[i] = (st[0], list(d.xdata if st[0] == "xy-xunit" else d.ydata))
+                    else:
+                        q.define_unit(_def_name(i), s)
+                        held[i] = ("define", _def_name(i))
+                    out.append(("ok", look(i)))
+                elif st[0] == "edit":
+                    if st[1] not in held or held[st[1]][0] != "parse":
+                        out.append(("skip",))
+                        continue
+                    d = held[st[1]][1]
+                    if st[2] == "set":
+                        v = F(st[4], st[5])
+                        d[st[3]] = int(v) if v.denominator == 1 else float(v)
+                    elif st[2] == "pop":
+                        if st[3] not in d:
+                            out.append(("skip",))
+                            continue
+                        d.pop(st[3])
+                    else:
+                        d.clear()
+                    out.append(("ok", look(st[1])))
+                else:
+                    out.append(("ok", look(st[1])) if st[1] in held else ("skip",))
+            except Exception as e:  # noqa: BLE001  a rejection (entry) or a broken read
+                out.append(("reject", type(e).__name__))
+    X.reset(q)
+    return out
+
+
+def session_judge(hist, obs, model=None):
+    """failures of one executed history (independent oracle first, then the model tie)"""
+    fails = []
+    exp = session_expect(hist)
+    for i, (st, o, e) in enumerate(zip(hist, obs, exp)):
+        if e[0] == "skip" or o[0] == "skip":
+            continue        # nothing to look at (the failing entry step itself is reported)
+        s = st[1] if st[0] in ENTRIES else hist[st[1]][1]
+        src = st[0] if st[0] in ENTRIES else hist[st[1]][0]
+        base = {"input": {"history": [_step_text(x) for x in hist], "step": i}, "session": hist,
+                "oracle": "independent", "entry": src, "carries_history": True}
+        before = "; ".join(_step_text(x) for x in hist[:i]) or "nothing"
+        if st[0] in ENTRIES:
+            if e[0] == "reject" and o[0] == "ok":
+                fails.append(dict(base, signature="c12:session:accept:{}:{}".format(src, shape(s)),
+                                  what="{} is accepted (outside the grammar) after: {}".format(
+                                      _step_text(st), before),
+                                  impl=str(o[1]), expected="rejection", clause="rejection"))
+            elif e[0] == "ok" and o[0] != "ok":
+                fails.append(dict(base, signature="c12:session:reject:{}:{}".format(src, shape(s)),
+                                  what="{} raises {} for a sentence of the grammar after: {}".format(
+                                      _step_text(st), o[-1], before),
+                                  impl=str(o), expected=X.show(e[1]), clause="acceptance"))
+            elif e[0] == "ok" and o[1] != e[1]:
+                fails.append(dict(base, signature="c12:session:meaning:{}:{}".format(src, shape(s)),
+                                  what="{} does not give the exponents written in the string; "
+                                       "before it: {}".format(_step_text(st), before),
+                                  impl=X.show(o[1]) if _is_sem(o[1]) else str(o[1]),
+                                  expected=X.show(e[1]), clause="precedence"))
+        elif o[0] != "ok" or o[1] != e[1]:
+            what = ("the mapping handed out by step {} does not hold what its caller made of it"
+                    if src == "parse" else
+                    "the unit stored by step {} is no longer the one its string says").format(st[1])
+            fails.append(dict(base, signature="c12:session:handle:{}:{}".format(src, shape(s)),
+                              what=what + "; history: " + "; ".join(_step_text(x) for x in hist[:i + 1]),
+                              impl=(X.show(o[1]) if _is_sem(o[1]) else str(o[1])) if o[0] == "ok" else str(o),
+                              expected=X.show(e[1]),
+                              clause="the reading of a string does not depend on other calls"))
+    if model is not None and not fails:
+        if "fail" in model:
+            return [{"signature": "model-error", "kind": "disagreement", "input": {"history": hist},
+                     "what": "model driver: " + model["fail"]}]
+        for i, (st, o, m) in enumerate(zip(hist, obs, model["replies"])):
+            mm = ("ok", X.sem_json(m["units"])) if m["ok"] else None
+            oo = o[:2] if o[0] == "ok" else None
+            if exp[i][0] == "skip" or (o[0] == "skip"):
+                continue
+            if mm != oo:
+                fails.append({"signature": "c12:session-model-differs:{}".format(st[0]),
+                              "kind": "disagreement", "input": {"history": hist, "step": i},
+                              "what": "Lean session model and the implementation differ at step "
+                                      "{} ({})".format(i, _step_text(st)),
+                              "impl": str(oo), "expected": str(mm)})
+    return fails
+
+
+def _is_sem(v):
+    return isinstance(v, tuple) and all(isinstance(x, tuple) and len(x) == 2 and isinstance(x[0], str)
+                                        for x in v)
+
+
+def _step_text(st):
+    if st[0] in ENTRIES:
+        return {"parse": "parse_unit_string({!r})", "ctor": "Measurement(unit={!r})",
+                "setter": "x.unit = {!r}", "array-ctor": "MeasurementArray(unit={!r})",
+                "array-setter": "array.unit = {!r}", "repeated-ctor": "Measurement([..], unit={!r})",
+                "wrap-ctor": "MeasurementArray([<measurements>], unit={!r})",
+                "xy-ctor-x": "XYDataSet(.., xunit={!r})", "xy-ctor-y": "XYDataSet(.., yunit={!r})",
+                "xy-xunit": "xy.xunit = {!r}", "xy-yunit": "xy.yunit = {!r}",
+                "define": "define_unit(name, {!r})"}[st[0]].format(st[1])
+    if st[0] == "edit":
+        if st[2] == "set":
+            return "result_of_step_{}[{!r}] = {}".format(st[1], st[3], F(st[4], st[5]))
+        if st[2] == "pop":
+            return "result_of_step_{}.pop({!r})".format(st[1], st[3])
+        return "result_of_step_{}.clear()".format(st[1])
+    return "look at the result of step {}".format(st[1])
+
+
+def session_model_steps(hist):
+    return [["parse", st[1]] if st[0] in ENTRIES else st for st in hist]
+
+
+def session_classes(hist):
+    """which deliberate scenario classes a history contains"""
+    cl = set()
+    seen, edited, rejected_since = {}, set(), {}
+    for i, st in enumerate(hist):
+        if st[0] in ENTRIES:
+            s = st[1]
+            if s in seen:
+                cl.add("same string again")
+                if seen[s] != st[0]:
+                    cl.add("same string, other entry point")
+                if s in edited:
+                    cl.add("same string again after its result was edited")
+                if rejected_since.get(s):
+                    cl.add("same string again after a rejected call")
+            if any(t != s and s in variants(t) for t in seen):
+                cl.add("near-identical string (case, dot, blank, sign) after another")
+            seen.setdefault(s, st[0])
+            if ref_parse(s) is None:
+                for t in seen:
+                    rejected_since[t] = True
+                cl.add("rejected call")
+        elif st[0] == "edit":
+            edited.add(hist[st[1]][1])
+            cl.add("edit:" + st[2])
+        elif hist[st[1]][0] != "parse":
+            cl.add("read:" + hist[st[1]][0])
+    return cl
+
+
+def gen_session(rng, pool):
+    """one history over 1-3 accepted strings of the pool, their near-identical variants and a
+    rejected string; every accepted string is handed out, the result is edited, and the string is
+    used again through several entry points; at the end every string is parsed once more and
+    every handle is looked at"""
+    good = [s for s, e, _ in pool if e is not None and e != () and len(s) <= 24]
+    bad = [s for s, e, _ in pool if e is None and 0 < len(s) <= 24]
+    base = rng.sample(good, min(len(good), rng.randint(1, 3)))
+    words = list(base)
+    for s in base:
+        vs = variants(s)
+        if vs and rng.random() < 0.6:
+            words.append(rng.choice(vs))
+    if bad and rng.random() < 0.7:
+        words.append(rng.choice(bad))
+    hist = []
+    content = {}          # "parse" step with an accepted string -> what its caller holds now
+
+    def entry(kind, s):
+        hist.append([kind, s])
+        r = ref_parse(s)
+        if kind == "parse" and r is not None:
+            content[len(hist) - 1] = dict(r)
+
+    def edit(h):
+        d = content[h]
+        r = rng.random()
+        if d and r < 0.45:
+            k = rng.choice(sorted(d))
+            v = d[k] + rng.choice([-3, -2, -1, 1, 2, 5])
+            hist.append(["edit", h, "set", k, v.numerator, v.denominator])
+            d[k] = v
+        elif d and r < 0.7:
+            k = rng.choice(sorted(d))
+            hist.append(["edit", h, "pop", k])
+            d.pop(k)
+        elif r < 0.85:
+            k, v = rng.choice(["Q", "x", "mol", "kg"]), rng.choice([F(1), F(-2), F(7), F(1, 2)])
+            hist.append(["edit", h, "set", k, v.numerator, v.denominator])
+            d[k] = v
+        else:
+            hist.append(["edit", h, "clear"])
+            d.clear()
+
+    for s in base:
+        entry(rng.choice(["parse", "parse", "ctor", "define", "array-setter"]), s)
+        entry("parse", s)
+        h = len(hist) - 1
+        for _ in range(rng.randint(1, 3)):
+            edit(h)
+        for kind in rng.sample(ENTRIES, rng.randint(2, 4)) + ["parse"]:
+            entry(kind, s)
+    for _ in range(rng.randint(2, 8)):
+        r = rng.random()
+        if r < 0.65 or not content:
+            entry(rng.choice(ENTRIES), rng.choice(words))
+        elif r < 0.9:
+            edit(rng.choice(sorted(content)))
+        else:
+            hist.append(["read", rng.choice([i for i, st in enumerate(hist) if st[0] in ENTRIES])])
+    n = len(hist)
+    for s in dict.fromkeys(words):
+        entry("parse", s)
+    for i in range(n):
+        if hist[i][0] in ENTRIES:
+            hist.append(["read", i])
+    return hist
+
+
+FIXED_SESSIONS = [
+    [["parse", "m/s"], ["edit", 0, "set", "s", -2, 1], ["parse", "m/s"], ["ctor", "m/s"],
+     ["read", 0]],
+    [["ctor", "kg*m/s^2"], ["parse", "kg*m/s^2"], ["edit", 1, "pop", "kg"], ["read", 0],
+     ["setter", "kg*m/s^2"], ["define", "kg*m/s^2"], ["read", 5]],
+    [["define", "kg/(m*s^2)"], ["parse", "kg/(m*s^2)"], ["edit", 1, "clear"], ["read", 0],
+     ["array-ctor", "kg/(m*s^2)"], ["parse", "kg/(m*s^2)"]],
+    [["parse", "m/s"], ["parse", "M/S"], ["parse", "m/s "], ["parse", "m/s"], ["parse", "m" + X.DOT + "s"],
+     ["parse", "m*s"]],
+    [["parse", "a(b"], ["parse", "a(b)"], ["parse", "a(b"], ["array-setter", "a(b)"],
+     ["parse", "a(b)"], ["edit", 4, "set", "b", 3, 1], ["read", 3], ["parse", "a(b)"]],
+]
+
+
+def shrink_session(hist, fails):
+    """delete steps (with the steps that refer to them) while `fails(history)` still holds"""
+    def without(h, j):
+        out = []
+        gone = {j}
+        for i, st in enumerate(h):
+            if i == j or (st[0] in ("edit", "read") and st[1] in gone):
+                gone.add(i)
+                continue
+            out.append(list(st))
+        ren = {}
+        k = 0
+        for i in range(len(h)):
+            if i not in gone:
+                ren[i] = k
+                k += 1
+        for st in out:
+            if st[0] in ("edit", "read"):
+                st[1] = ren[st[1]]
+        return out
+    changed = True
+    while changed and len(hist) > 1:
+        changed = False
+        for j in range(len(hist) - 1, -1, -1):
+            t = without(hist, j)
+            if t and fails(t):
+                hist, changed = t, True
+                break
+    return hist
+
+
+def run_sessions(ctx, hists, ref=False, use_model=True):
+    import qexpy as q
+    replies = [None] * len(hists)
+    if use_model and hists:
+        replies = ctx.model([{"cmd": "usession", "steps": session_model_steps(h)} for h in hists],
+                            ref=ref)
+    failures = []
+    dist = collections.Counter()
+    steps = 0
+    room, confirmed, tried = None, 0, 0
+    for h, m in zip(hists, replies):
+        obs = session_run(q, h)
+        steps += len(h)
+        dist["session histories"] += 1
+        for c in session_classes(h):
+            dist["session: " + c] += 1
+        for st in h:
+            dist["session step: " + (st[0] if st[0] not in ENTRIES else "entry " + st[0])] += 1
+        fs = session_judge(h, obs, m)
+        for f in fs[:1]:
+            if f.get("oracle") == "independent":
+                # confirm and shorten the history in a CLEAN ROOM (a new process per attempt):
+                # inside this run a changed library may carry state from earlier histories
+                if confirmed < 3 and tried < 12:
+                    tried += 1
+                    room = room or C.CleanRoom("props.c12")
+                    alone = lambda t: room.replay({"session": t}).get("fails")   # noqa: E731
+                    if alone(h):
+                        confirmed += 1
+                        sh = shrink_session(h, alone)
+                        g = room.replay({"session": sh}).get("failures") or []
+                        if g:
+                            f = dict(g[0], found_in=h, reproduces_alone=True, session=sh)
+                    else:
+                        f = dict(f, kind="not-reproducible-alone",
+                                 note="fails after the earlier histories of this run, not alone")
+                        dist["session histories failing only after earlier histories"] += 1
+            failures.append(f)
+    if room:
+        room.close()
+    return failures, dict(dist), steps
 
 
 def exhaustive_strings(max_chars, max_toks):
@@ -483,6 +933,12 @@ def correspond(ctx):
     fs, d = api_check(strings[:ctx.n(400, 5000)])
     r["failures"] += fs
     r["distribution"].update(d)
+    # histories of calls: repeated strings, edited results, every entry point (see "sessions")
+    hists = FIXED_SESSIONS + [gen_session(ctx.rng, strings) for _ in range(ctx.n(150, 3000))]
+    fs, d, steps = run_sessions(ctx, hists)
+    r["failures"] += fs
+    r["distribution"].update(d)
+    r["evaluations"] += steps
     if not ctx.quick:
         seen = {s for s, _, _ in strings}
         ex = [(s, ref_parse(s), "exhaustive") for s in exhaustive_strings(6, 6) if s not in seen]
@@ -505,6 +961,11 @@ def search(ctx, broken):
     out["failures"] += [f for f in r["failures"] if f.get("oracle") == "independent"]
     out["strategy"].append("independent recursive-descent parser / syntax-tree denotation as "
                            "oracle: {} strings (incl. all strings of length <= 4)".format(len(strings)))
+    hists = FIXED_SESSIONS + [gen_session(ctx.rng, strings) for _ in range(ctx.n(400, 3000))]
+    fs, _, steps = run_sessions(ctx, hists, use_model=False)
+    out["failures"] += [f for f in fs if f.get("oracle") == "independent"]
+    out["strategy"].append("histories of calls (repeated strings, edited results, all entry points) "
+                           "against the same oracle: {} histories, {} steps".format(len(hists), steps))
     try:
         r = run(ctx, strings[:20000], ref=True)
         for f in r["failures"]:
@@ -519,6 +980,13 @@ def search(ctx, broken):
 
 def replay(ctx, rp):
     f = rp.get("failure", {})
+    if f.get("session"):
+        import qexpy as q
+        hist = f["session"]
+        obs = session_run(q, hist)
+        fs = session_judge(hist, obs)
+        return {"fails": bool(fs), "input": [_step_text(x) for x in hist], "failures": fs,
+                "impl": [str(o) for o in obs]}
     s = f.get("shrunk") if isinstance(f.get("shrunk"), str) else f.get("input")
     if not isinstance(s, str):
         return {"fails": False, "note": "replay file carries no concrete input", "payload": rp}
